@@ -1,6 +1,7 @@
 import Enc.Lemmas.Proto
 import Enc.Spec.Protobuf
 import Enc.Lemmas.ProtoVarint
+import Enc.Lemmas.ProtoWireVal
 /-!
 # C12 — proto bytes are standard protobuf wire format, both ways
 Property theorems only.
@@ -37,5 +38,41 @@ theorem zigzag_is_spec (i : Int) (h1 : -(2:Int)^63 ≤ i) (h2 : i < (2:Int)^63) 
 theorem varint_roundtrip (v : BitVec 64) (rest : Bytes) :
     decodeVarint (encodeVarint v ++ rest) = .ok (v, sizeOfVarint v) :=
   Lemmas.ProtoVarint.decode_encode_varint v rest
+
+/-! ## the reference decoder reads what Marshal writes (proofs in Enc/Lemmas/ProtoWire*.lean, 2.6 k lines)
+
+Universe `tyOK`: messages whose fields are bool, all integer kinds (plain, zigzag32/64, fixed32/64 on uint32/uint64),
+float32/64, string, []byte, nested messages, pointers to those scalars and to messages, and repeated fields of
+scalars, []byte and messages; field numbers 1…65535, pairwise distinct. `hasType`: value shapes and ranges.
+`tagAgree` (model and specification read the struct tag alike) is proved for untagged fields (`tagAgree_empty`) and is
+a decidable hypothesis for tagged ones. Outside the universe: maps, byte arrays, `[]*T`, `**T`, `*[]T`, named types,
+RawMessage (differential only) and the shapes of the known findings. -/
+
+open Lemmas.ProtoWire in
+/-- **MAIN (bytes).** What `Marshal` writes for a message is exactly the concatenation of the reference encodings of its
+records: non-repeated fields in declaration order, then one record per element of each repeated field. -/
+theorem struct_bytes (fs : Fields) (vs : Vals) (fl : Flags)
+    (hty : tyOK (.struct fs) = true) (hv : hasTypes fs vs = true) (hz : fl.zigzag = false)
+    (hlen : (encode (.struct (fieldsOf 1 fs)) (.struct vs) fl).length < 2 ^ 64) :
+    encode (.struct (fieldsOf 1 fs)) (.struct vs) fl = encRecs (allRecords fl.wantzero fs vs) :=
+  Lemmas.ProtoWire.struct_bytes fs vs fl hty hv hz hlen
+
+open Lemmas.ProtoWire in
+/-- **MAIN (reference decodes to the same values), scalar messages**: literal equality -/
+theorem reference_decodes_marshal (fs : Fields) (v : Val)
+    (hty : tyOK (.struct fs) = true) (hpl : plainTy (.struct fs) = true)
+    (hv : hasType (.struct fs) v = true) (hlen : (marshal (.struct fs) v).length < 2 ^ 64) :
+    Spec.Protobuf.decode (.struct fs) (marshal (.struct fs) v) = some v :=
+  Lemmas.ProtoWire.decode_marshal_scalar fs v hty hpl hv hlen
+
+open Lemmas.ProtoWire in
+/-- … and with optional (`*T`) and repeated (`[]T`) fields, up to the canonical form (nil ≡ empty); `noEmptyPtr`
+excludes exactly the known finding "a pointer whose pointee encodes to zero bytes comes back nil" -/
+theorem reference_decodes_marshal_partial (fs : Fields) (v : Val)
+    (hty : tyOK (.struct fs) = true) (hv : hasType (.struct fs) v = true)
+    (hne : noEmptyPtr (.struct fs) v = true) (hlen : (marshal (.struct fs) v).length < 2 ^ 64) :
+    (Spec.Protobuf.decode (.struct fs) (marshal (.struct fs) v)).map (Spec.Protobuf.canonical (.struct fs))
+      = some (Spec.Protobuf.canonical (.struct fs) v) :=
+  Lemmas.ProtoWire.decode_marshal_partial fs v hty hv hne hlen
 
 end Enc.Props.C12
